@@ -29,6 +29,7 @@ type Prog struct {
 	Fset   *token.FileSet
 	Pkgs   []*packages.Package // module packages only (roots of ./...)
 	SSA    *ssa.Program
+	Seams  map[string]string       // function-variable seams resolved to the function they always hold
 	SPkgs  map[string]*ssa.Package // by short name (fsutil, copy, types, util, cmd/send ...)
 	byName map[string]*ssa.Function
 	// ModFuncs is every function (incl. closures, methods, generic instances)
@@ -125,7 +126,11 @@ func Load(dir, goos, goarch string, tests bool) (*Prog, error) {
 	}
 	sprog, _ := ssautil.AllPackages(pkgs, ssa.InstantiateGenerics)
 	sprog.Build()
-	p := &Prog{Dir: dir, GOOS: goos, GOARCH: goarch, Fset: sprog.Fset, SSA: sprog,
+	seams := resolveSeams(sprog, func(fn *ssa.Function) bool {
+		pk := fnPkg(fn)
+		return pk != nil && (pk.Path() == ModulePath || strings.HasPrefix(pk.Path(), ModulePath+"/"))
+	}, func(pos token.Pos) bool { return strings.HasSuffix(sprog.Fset.Position(pos).Filename, "_test.go") })
+	p := &Prog{Seams: seams, Dir: dir, GOOS: goos, GOARCH: goarch, Fset: sprog.Fset, SSA: sprog,
 		SPkgs: map[string]*ssa.Package{}, byName: map[string]*ssa.Function{}, allFuncs: map[*ssa.Function]bool{}}
 	for _, r := range roots {
 		if tests && (strings.HasSuffix(r.ID, ".test") || strings.Contains(r.ID, " [")) {
